@@ -5,6 +5,8 @@ package sim
 
 import (
 	"fmt"
+	"os"
+	"strings"
 	"reflect"
 	"sort"
 	"time"
@@ -332,7 +334,26 @@ type Domain struct {
 }
 
 func CoreDomain() Domain {
-	return Domain{BigStrings: true, BigBinaries: true, AllDoubles: true, MaxListLen: 40, MaxMapLen: 6}
+	d := Domain{EmptyStringElems: true, NilPtrElems: true, ZeroTimeElems: true, FarDates: true, BigStrings: true, BigBinaries: true, AllDoubles: true, MaxListLen: 40, MaxMapLen: 6}
+	// development aid: VF_DOMAIN=EmptyStringElems,FarDates,... switches excluded features on, to find out
+	// whether they (still) fail; registered checks never set it
+	for _, f := range strings.Split(os.Getenv("VF_DOMAIN"), ",") {
+		switch f {
+		case "EmptyStringElems":
+			d.EmptyStringElems = true
+		case "NilPtrElems":
+			d.NilPtrElems = true
+		case "ZeroTimeElems":
+			d.ZeroTimeElems = true
+		case "FarDates":
+			d.FarDates = true
+		case "WideInts":
+			d.WideInts = true
+		case "SharedSlices":
+			d.SharedSlices = true
+		}
+	}
+	return d
 }
 
 type Gen struct {
